@@ -817,6 +817,128 @@ def history_oracle(h):
 
 
 # --------------------------------------------------------------------------
+# history oracle 2: one ApertureMask object (kept from to_mask()) used for a sequence of calls
+# --------------------------------------------------------------------------
+MASK_OPS = ['get_values', 'get_values', 'get_values', 'multiply', 'cutout', 'to_image', 'get_overlap_slices']
+
+
+def gen_maskhist(rng):
+    cls = rng.choice(PIXEL_CLASSES)
+    params = gen_params(rng, cls, False)
+    ext = extent_of(cls, params)
+    npos = rng.randint(1, 3)
+    by, bx = rng.randint(3, 12), rng.randint(3, 12)
+    positions = [list(gen_position(rng, by, bx, ext, False)[0]) for _ in range(npos)]
+    if rng.random() < 0.7:       # at least one aperture well inside the first frame
+        positions[0] = [rng.uniform(1, bx - 1), rng.uniform(1, by - 1)]
+    steps = []
+    for _ in range(rng.randint(4, 9)):
+        if rng.random() < 0.7:
+            ny, nx = by, bx
+        else:
+            ny, nx = rng.randint(1, 14), rng.randint(1, 14)
+        d, _ = gen_image(rng, ny, nx, False, rng.random() < 0.2)
+        steps.append({'obj': rng.randrange(npos), 'op': rng.choice(MASK_OPS), 'data': d,
+                      'mask': gen_mask(rng, ny, nx), 'fill': rng.choice([0.0, 0.0, 2.5, -1.0, math.nan])})
+    return {'cls': cls, 'params': params, 'positions': positions,
+            'method': rng.choice(['exact', 'center', 'subpixel']), 'subpixels': rng.choice([1, 3, 5]),
+            'steps': steps}
+
+
+def mask_call(m, st):
+    """one public ApertureMask call of the step, canonicalised for comparison"""
+    data = _arr(st['data'])
+    mask = None if st['mask'] is None else np.array(st['mask'], bool)
+    op = st['op']
+    with warnings.catch_warnings():
+        warnings.simplefilter('ignore')
+        if op == 'get_values':
+            return np.asarray(m.get_values(data, mask=mask), float)
+        if op == 'multiply':
+            return m.multiply(data, fill_value=st['fill'])
+        if op == 'cutout':
+            return m.cutout(data, fill_value=st['fill'])
+        if op == 'to_image':
+            return m.to_image(data.shape)
+        sl = m.get_overlap_slices(data.shape)
+        return None if sl[0] is None else np.array([[s.start, s.stop] for pair in sl for s in pair], float)
+
+
+def mask_definition(W, bb, st):
+    """the same results from the definitions (plain loops over pixels)"""
+    data = _arr(st['data'])
+    ny, nx = data.shape
+    mask = st['mask']
+    op = st['op']
+    meets, P = pixel_set(W.tolist(), bb, ny, nx, mask if op == 'get_values' else None)
+    if op == 'get_values':
+        with np.errstate(all='ignore'):
+            return np.array([float(data[y][x]) * w for (y, x, w) in P], float)
+    if not meets:
+        return None
+    h, w = W.shape
+    fill = float(st['fill'])
+    if op == 'get_overlap_slices':
+        ys = [y for y in range(ny) if bb.iymin <= y < bb.iymax]
+        xs = [x for x in range(nx) if bb.ixmin <= x < bb.ixmax]
+        return np.array([[ys[0], ys[-1] + 1], [xs[0], xs[-1] + 1],
+                         [ys[0] - bb.iymin, ys[-1] + 1 - bb.iymin], [xs[0] - bb.ixmin, xs[-1] + 1 - bb.ixmin]], float)
+    exp_ti = np.zeros((ny, nx))
+    exp_cu = np.full((h, w), fill)
+    for i in range(h):
+        for j in range(w):
+            y, x = bb.iymin + i, bb.ixmin + j
+            if 0 <= y < ny and 0 <= x < nx:
+                exp_ti[y, x] = W[i, j]
+                exp_cu[i, j] = data[y, x]
+    if op == 'to_image':
+        return exp_ti
+    if op == 'cutout':
+        return exp_cu
+    with np.errstate(all='ignore'):
+        return np.array([[fill if W[i, j] == 0 else float(exp_cu[i, j]) * float(W[i, j]) for j in range(w)]
+                         for i in range(h)]).reshape(h, w)
+
+
+def same_opt(a, b):
+    if a is None or b is None:
+        return a is None and b is None
+    return same(a, b)
+
+
+def maskhist_oracle(h):
+    """a sequence of get_values / multiply / cutout / to_image / get_overlap_slices calls with varying data
+    (shapes too), masks and fill values on the SAME ApertureMask objects: every result must equal the definition
+    and the result of a fresh ApertureMask; data, bbox and shape of the object must never change."""
+    from photutils.aperture import ApertureMask, BoundingBox
+    viol = []
+    aper = make_aperture(h['cls'], h['params'], h['positions'])
+    with warnings.catch_warnings():
+        warnings.simplefilter('ignore')
+        kept = list(aper.to_mask(method=h['method'], subpixels=h['subpixels']))
+    snap = [(m.data.copy(), (m.bbox.ixmin, m.bbox.ixmax, m.bbox.iymin, m.bbox.iymax), tuple(m.shape)) for m in kept]
+    for k, st in enumerate(h['steps']):
+        m = kept[st['obj']]
+        W0, bb0, sh0 = snap[st['obj']]
+        where = {'step': k, 'op': st['op'], 'object': st['obj'], 'earlier_ops': [s['op'] for s in h['steps'][:k] if s['obj'] == st['obj']]}
+        got = mask_call(m, st)
+        fresh = ApertureMask(W0.copy(), BoundingBox(*bb0))
+        want_fresh = mask_call(fresh, st)
+        want_def = mask_definition(W0, fresh.bbox, st)
+        if not same_opt(got, want_def):
+            viol.append((f'maskhistory:{st["op"]}:definition', f'{st["op"]} on a re-used ApertureMask differs from its definition', where))
+        if not same_opt(got, want_fresh):
+            viol.append((f'maskhistory:{st["op"]}:fresh', f'{st["op"]} on a re-used ApertureMask differs from a fresh ApertureMask', where))
+        state_ok = (m.data.shape == W0.shape and same(m.data, W0) and tuple(m.shape) == sh0 and
+                    (m.bbox.ixmin, m.bbox.ixmax, m.bbox.iymin, m.bbox.iymax) == bb0)
+        if not state_ok:
+            viol.append((f'maskhistory:{st["op"]}:state', f'{st["op"]} changed data/bbox/shape of the ApertureMask', where))
+        if viol:
+            break
+    return viol
+
+
+# --------------------------------------------------------------------------
 # Coq terms
 # --------------------------------------------------------------------------
 def zval(v, scale):
@@ -960,7 +1082,7 @@ def run(ctx):
         'arbitrary-double cases (exact / any subpixels) through V with the rigorous bound; six pixel classes, '
         'scalar / 1-4 positions (inside, pixel centre/corner, straddling an edge or corner, box touching the frame, '
         'far outside), 1-3 apertures, masks (none / random / all), NaN/inf pixels, bare array / NDData / Quantity, float64 / float32 / int16 / int32 / uint8 storage; '
-        'sky apertures through a TAN WCS; hole images under exact elliptical annuli; re-used aperture objects after the caller changed its position container in place / after aper.positions = new; '
+        'sky apertures through a TAN WCS; hole images under exact elliptical annuli; re-used aperture objects after the caller changed its position container in place / after aper.positions = new; sequences of get_values/multiply/cutout/to_image/get_overlap_slices with varying data shapes, masks and fills on one ApertureMask kept from to_mask(); '
         'non-trivial = at least one position whose pixel set is non-empty')
     ctx.assumptions += [
         'weights W and the bounding box are taken from the implementation (aperture.to_mask); their geometric '
@@ -1044,11 +1166,32 @@ def run(ctx):
         for sig, what, detail in viol:
             report(ctx, seen, sig, what, {'history': h, 'where': detail})
     ctx.support('reused_aperture_consistency', n_hist)
+    # re-used ApertureMask objects: sequences of public calls on the same object
+    n_mh = 60 if quick else 700
+    for _ in range(n_mh):
+        h = gen_maskhist(rng)
+        try:
+            viol = maskhist_oracle(h)
+        except Exception as ex:  # noqa: BLE001
+            viol = [('maskhistory:exception', f'{type(ex).__name__}: {str(ex)[:150]}', {})]
+        ctx.stat('maskhistory_class', h['cls'])
+        for st in h['steps']:
+            ctx.stat('maskhistory_op', st['op'])
+        ctx.count_case(h, True)
+        for sig, what, detail in viol:
+            report(ctx, seen, sig, what, {'maskhistory': h, 'where': detail})
+    ctx.support('reused_aperturemask_consistency', n_mh)
 
 
 def replay(obj):
     r = obj['replay']
     import random
+    if 'maskhistory' in r:
+        viol = maskhist_oracle(r['maskhistory'])
+        for sig, what, detail in viol:
+            print('FAIL', sig, what, detail)
+        print('property FAILS on this input' if viol else 'property holds on this input')
+        return 1 if viol else 0
     if 'history' in r:
         viol = history_oracle(r['history'])
         for sig, what, detail in viol:
